@@ -610,6 +610,27 @@ func (x *Exec) bitop(st *State, op token.Token, a, b *Val, rt types.Type) *Val {
 				}
 			}
 		}
+		// x & c for a constant with few set bits: sum of the selected bits
+		for _, pr := range [][2]string{{at, bt}, {bt, at}} {
+			if mn, ok := isNumLit(pr[1]); ok && mn.Sign() > 0 && mn.BitLen() <= 63 {
+				nbits := 0
+				for k := 0; k < mn.BitLen(); k++ {
+					if mn.Bit(k) == 1 {
+						nbits++
+					}
+				}
+				if nbits <= 8 {
+					t := "0"
+					for k := 0; k < mn.BitLen(); k++ {
+						if mn.Bit(k) == 1 {
+							p := pow2(uint(k)).String()
+							t = tAdd(t, tMul("(mod (div "+pr[0]+" "+p+") 2)", p))
+						}
+					}
+					return mkInt(rt, t)
+				}
+			}
+		}
 	case token.OR:
 		if bok && bn.Sign() == 0 {
 			return a
@@ -659,10 +680,35 @@ func (x *Exec) bitop(st *State, op token.Token, a, b *Val, rt types.Type) *Val {
 	return v
 }
 
+// strCompare: lexicographic order on strings, modelled as an uninterpreted
+// strict total order strlt_ on content codes (see strEq) with the empty string
+// least. Sound for the same reason as strEq: the real order is one such order.
 func (x *Exec) strCompare(op token.Token, a, b *Val) string {
-	x.vc.declare("strlt_", "(Array Int (Array Int (Array Int Bool)))") // placeholder order, keyed by (arr-hash?) -- opaque
-	r := x.vc.fresh("strcmp", sBool)
-	return r
+	x.declareFun("strlt_", "(Int Int) Bool")
+	if !x.vc.declared["strlt_trans"] {
+		x.vc.declared["strlt_trans"] = true
+		x.vc.lines = append(x.vc.lines, "(assert (forall ((x!a Int) (y!a Int) (z!a Int)) (! (=> (and (strlt_ x!a y!a) (strlt_ y!a z!a)) (strlt_ x!a z!a)) :pattern ((strlt_ x!a y!a) (strlt_ y!a z!a)))))")
+	}
+	ia, ib := x.strID(a), x.strID(b)
+	lt := func(p, q string) string { return "(strlt_ " + p + " " + q + ")" }
+	x.vc.assume(tAnd(
+		tNot(tAnd(lt(ia, ib), lt(ib, ia))),
+		tOr(lt(ia, ib), lt(ib, ia), tEq(ia, ib)),
+		tImp(tEq(ia, ib), tAnd(tNot(lt(ia, ib)), tNot(lt(ib, ia)))),
+		tImp(tAnd(tEq(a.L[2], "0"), tEq(b.L[2], "0")), tEq(ia, ib)),
+		tImp(tAnd(tEq(a.L[2], "0"), tCmp(">", b.L[2], "0")), lt(ia, ib)),
+		tImp(tAnd(tEq(b.L[2], "0"), tCmp(">", a.L[2], "0")), lt(ib, ia)),
+		tImp(tEq(ia, ib), tEq(a.L[2], b.L[2]))))
+	switch op {
+	case token.LSS:
+		return lt(ia, ib)
+	case token.GTR:
+		return lt(ib, ia)
+	case token.LEQ:
+		return tNot(lt(ib, ia))
+	default:
+		return tNot(lt(ia, ib))
+	}
 }
 
 // copyInto returns an array equal to D except that D'[dlo+k] = S[slo+k] for
